@@ -40,6 +40,9 @@ structure MolQ where
   labels : List (List Char)
   bonds : List (Nat × Nat × BT)
   oid : Nat := 0          -- Python object identity (two dictionary entries may hold the same MolQuery)
+  /-- per atom: the radical count its constraint objects declare (first non-negated `AtomRadical` with operator `=`:
+  the suffix's, else one of the chain), `none` when left open — what `ReadRadicalModify` balances against -/
+  rads : List (Option Nat) := []
   deriving Repr, Inhabited
 
 def kw (s : String) : List Char := s.toList
@@ -226,6 +229,55 @@ def lookup (q : MolQ) (l : List Char) : RM Nat :=
   | some i => pure i
   | none => throw .reader
 
+/-- the `AtomRadical` constraint `ReadAtomType` makes of the suffix (or of its absence): its count -/
+def suffixRadical (tk : List Ast) : Option Nat :=
+  let rest := match tk with
+    | .node n _ :: r => if n = rAtomPrefix then r else tk
+    | _ => tk
+  match rest with
+  | [_] => some 0
+  | _ :: .node _ (.str s :: _) :: _ =>
+    if s = kw "." ∨ s = kw "+." ∨ s = kw "-." then some 1
+    else if s = kw ":" then some 2
+    else if s = kw ":." then some 3
+    else none
+  | _ => none
+
+/-- the count of a non-negated `has [=]n radical electrons` item -/
+def radicalItem (k : List Ast) : Option Nat :=
+  match k with
+  | [.node n [.node c ck]] =>
+    if n = rAtomConstraintRadical ∧ c = rConstraintNumber then
+      match ck with
+      | [.int v] => some v
+      | [.str o, .int v] => if o = kw "=" then some v else none
+      | _ => none
+    else none
+  | _ => none
+
+/-- the first such item of an `AtomConstraintChain` -/
+def chainRadical (kids : List Ast) : Option Nat :=
+  match kids with
+  | .node _ k :: more =>
+    match radicalItem k with
+    | some v => some v
+    | none =>
+      match more with
+      | .node _ mk :: _ => chainRadical mk
+      | _ => none
+  | _ => none
+termination_by sizeOf kids
+decreasing_by simp_wf; omega
+
+/-- what `DeclaredRadical` finds for an atom declared with type `tk` and the optional chain `more` -/
+def declaredRadical (tk more : List Ast) : Option Nat :=
+  match suffixRadical tk with
+  | some v => some v
+  | none =>
+    match more with
+    | .node _ ck :: _ => chainRadical ck
+    | _ => none
+
 /-- `ReadAtom(tree, molquery)` -/
 def readAtom (kids : List Ast) (q : MolQ) : RM MolQ :=
   match kids with
@@ -233,7 +285,7 @@ def readAtom (kids : List Ast) (q : MolQ) : RM MolQ :=
     if n = rAtomType then do
       readAtomType tk
       let l ← labelOf lab
-      let q := { q with labels := q.labels ++ [l] }
+      let q := { q with labels := q.labels ++ [l], rads := q.rads ++ [declaredRadical tk more] }
       match more with
       | [] => pure q
       | .node m ck :: _ => if m = rAtomConstraintChain then do readConstraintChain ck; pure q else throw .shape
@@ -249,7 +301,7 @@ def readBondedAtom (kids : List Ast) (q : MolQ) : RM MolQ :=
       readAtomType tk
       let idx := q.labels.length
       let l ← labelOf lab
-      let q := { q with labels := q.labels ++ [l] }
+      let q := { q with labels := q.labels ++ [l], rads := q.rads ++ [declaredRadical tk more] }
       let b ← child1 bt
       let l2 ← labelOf lab2
       let j ← lookup q l2
@@ -515,12 +567,15 @@ def readAtomStep (d : Int) (kids : List Ast) (s : Rxn) : RM Rxn :=
     pure (done (bump s i (2 * d)))
   | _ => throw .shape
 
-/-- `ReadRadicalModify`: `[AtomLabel, int]`; the query atom carries 0 radical electrons -/
+/-- `ReadRadicalModify`: `[AtomLabel, int]`; balanced against the radical count the reactant pattern declares for the
+atom (a pattern that leaves it open is a RINGReaderError) -/
 def readRadicalModify (kids : List Ast) (s : Rxn) : RM Rxn :=
   match kids with
   | a :: .int v :: _ => do
-    let (i, _, _, _) ← locate s (← labelOf a)
-    pure (done (bump s i (-(2 * (v : Int)))))
+    let (i, _, q, iq) ← locate s (← labelOf a)
+    match q.rads[iq]? with
+    | some (some d) => pure (done (bump s i (-(2 * ((v : Int) - (d : Int))))))
+    | _ => throw .reader
   | _ => throw .shape
 
 /-- `ReadAtomTypeModify`: `[AtomLabel, AtomType]`; a query atom's symbol is `'*'`, never the first
